@@ -137,6 +137,7 @@ class AtomGrid(Grid):
             self._rgrid, degrees, rotate=self._rot, method=method.lower()
         )
         self._size = self._weights.size
+        self._kdtree = None
         self._basis = None
         self._method = method.lower()
 
